@@ -259,6 +259,34 @@ fn search_props(prop: &str, tier: &str, seed: u64, threads: usize, out: &str) {
         l
     });
     extra.insert("random.graphs".into(), format!("{ngraphs}"));
+    {
+        // large graphs (size thresholds of internal containers, deep recursion): a few requests each
+        exec::new_section();
+        let nbig = if quick { 4 } else { 24 };
+        let fls = flavours.clone();
+        let p = prop.to_string();
+        spread(&mut ctxs, nbig, |i| {
+            let mut rng = Rng::new(seed.wrapping_mul(7_000_061).wrapping_add(i as u64));
+            let fl = fls[i % fls.len()];
+            let n = 900 + rng.below(500);
+            let mut edges = vec![];
+            for u in 0..n {
+                for _ in 0..1 + rng.below(3) {
+                    let v = if rng.chance(70) { (u + 1 + rng.below(5)) % n } else { rng.below(n) };
+                    edges.push((u, v, rng.below(4) as u32));
+                }
+            }
+            let g = gen_search::GraphSpec { n, vals: (0..n).map(|_| rng.below(5) as i64).collect(), edges };
+            let mut l = vec![format!("case {fl} big{i}")];
+            l.extend(gen_search::graph_lines(&g));
+            let mut small_rng = Rng::new(i as u64 + 11);
+            let reqs = gen_search::requests(&p, fl, &g, false, Some(&mut small_rng));
+            // a sample of the requests (every 5th), all of them would take the model too long
+            l.extend(reqs.into_iter().enumerate().filter(|(j, _)| j % 5 == 0).map(|(_, r)| r).take(40));
+            l
+        });
+        extra.insert("large".into(), format!("{nbig} graphs with 900-1400 nodes"));
+    }
     if ["C04", "C05", "C06", "C09"].contains(&prop) {
         // the same searches over nodes whose key type has colliding hashes (visited sets, lookups by key)
         exec::new_section();
@@ -358,6 +386,24 @@ fn cont_props(prop: &str, tier: &str, seed: u64, threads: usize, out: &str) {
                 gen_cont::scc_history_case(fls[i % 2], &format!("h{i}"), &g, &mut rng, 6)
             });
             extra.insert("histories".into(), format!("{nh} x 6 scc calls interleaved with reversals, moves, connects, disconnects, isolates"));
+            // large containers (size thresholds, deep recursion): sparse random digraphs with local structure
+            exec::new_section();
+            let nbig = if quick { 2 } else { 12 };
+            spread(&mut ctxs, nbig, |i| {
+                let mut rng = Rng::new(seed.wrapping_mul(73).wrapping_add(i as u64));
+                let n = 1100 + rng.below(600);
+                let mut edges = vec![];
+                for u in 0..n {
+                    for _ in 0..rng.below(4) {
+                        // mostly short-range edges in both directions (many small components and triangles), a few long ones
+                        let v = if rng.chance(85) { (u + n + rng.below(7) - 3) % n } else { rng.below(n) };
+                        edges.push((u, v, 0u32));
+                    }
+                }
+                let g = gen_search::GraphSpec { n, vals: vec![0; n], edges };
+                gen_cont::scc_case(fls[i % 2], &format!("big{i}"), &g, &mut rng, 1)
+            });
+            extra.insert("large".into(), format!("{nbig} digraphs with 1100-1700 nodes"));
         }
         "C12" => {
             let configs: Vec<(usize, usize)> = if quick { vec![(2, 3), (3, 2)] } else { vec![(2, 4), (3, 4)] };
